@@ -452,7 +452,7 @@ LEVEL_TEXT = {
     'C01': 'Seeded pipeline histories biased towards lifetime edges (re-plumbing to NULL, release in mid-run, teardown orders, allocation failures): every pipe throws dead exactly once, sinks are never destroyed while referenced by the application, all managers and probes return to one reference, nothing stays allocated; the same over 55 more pipe types (sweep) and 14 sub-pipe families (super-pipe and sub-pipes released in any order). Evidence, not proof.',
     'C04': 'Seeded pipeline histories: ready first, dead exactly once and last, no event/data/flow definition after dead; every buffer reaches a sink under an accepted flow definition equal to the one in force (reference model and upstream getter), none after a rejection; the lifecycle clauses also over 55 more pipe types and 14 sub-pipe families, where the super-pipe must outlive its sub-pipes. Evidence, not proof.',
     'C05': 'Seeded pipeline histories against a reference model of every catalogue pipe: per sink the delivered sequence (numbers, payload, attributes, dates) equals the model, in order, exactly once; queues deliver held buffers first and in order, flush may only lose what was not delivered yet; 16 more pipe types documented never to drop deliver everything once their output takes data again, the loop ran and time passed, and leave the source pump unblocked. Evidence, not proof.',
-    'C20': 'Seeded pipeline histories with getter calls at random instants: getters return what the model says was set (a failed setter leaves the previous value), and a differential run without the getter calls must show identical histories; over 55 more pipe types the same history is executed again without its getters and without the setters the pipe rejected and must send the same buffers, flow definitions and events. Evidence, not proof.',
+    'C20': 'Seeded pipeline histories with getter calls at random instants: getters return what the model says was set (a failed setter leaves the previous value), and a differential run without the getter calls must show identical histories; over 55 more pipe types the same history is executed again without its getters and without the setters the pipe rejected and must send the same buffers, flow definitions and events, and the last accepted value of every option of a pipe is read back at every later getter call, with data, time and re-plumbing in between. Evidence, not proof.',
     'C03': 'Seeded histories of block operations against a plain byte-string model, with allocation failures injected inside operations and out-of-range arguments; every handle is re-read (random probe first, then segment by segment) after every operation. Found and fixed seven defects. Evidence, not proof.',
     'C02': 'Block buffers: the C03 engine with write mappings (a granted write may only change the handle it was issued on; exclusive never-sliced memory must be writable). Picture and sound buffers: seeded histories of alloc / dup / resize / map-for-write / copy / replace / free against a model of areas, owners and windows: a write mapping is granted iff the area has one owner, every handle always reads what the model holds. Evidence, not proof.',
     'C10': 'Seeded histories of dictionary operations against a typed-map model, with storage-growth failures injected inside set/import/dup. Evidence, not proof.',
@@ -461,7 +461,7 @@ LEVEL_TEXT = {
     'C08': 'Seeded exploration of producers/consumers sleeping on simulated event descriptors around the real uqueue; any quiescent state with work left is a lost wake-up. Found and fixed the counter-based wake-up defect; evidence, not proof.',
     'C06': 'Seeded exploration of thread interleavings of the real worker, transfer and queue pipes between an application thread and worker / producer threads: every buffer arrives exactly once, in order, under the flow definition it was sent under; end of source only after the last buffer; a full queue holds and later delivers; transferred pipes are only entered from the worker thread or under the freeze mutex; forwarded events arrive on the application thread; everything terminates and nothing stays allocated. Evidence, not proof.',
     'C16': 'Seeded transport histories through the real psi_merge, psi_split and psi_join: the merger returns exactly the sections the transport delivered, in order, once, complete, and picks up again at the next unit start after a flagged loss; every output is a well-formed section whatever comes in; the splitter delivers each section unmodified to exactly the outputs whose filter/mask match; the joiner forwards every section of every input; nothing stays allocated. Evidence, not proof.',
-    'C15': 'Seeded packet sequences from an independent reference packetiser through the real ts_decaps and pes_decaps: every access unit the channel did not touch is recovered octet for octet with its DTS, PTS-DTS delay, unit start / PES end / random access markers; duplicates and adaptation-only packets change nothing; every continuity gap is flagged on the next buffer delivered and nothing else is; arbitrary corrupt packets cause no out-of-bounds access, no leak, no output out of nothing; units wrapped by the real pes_encaps and ts_encaps (packets 188 octets, sync, PID, continuity counter +1 per payload packet, PES headers as the standard lays them out) come back intact. Evidence, not proof.',
+    'C15': 'Seeded packet sequences from an independent reference packetiser through the real ts_decaps and pes_decaps: every access unit the channel did not touch is recovered octet for octet with its DTS, PTS-DTS delay, unit start / PES end / random access markers; duplicates (also of packets that signal a discontinuity themselves) and adaptation-only packets change nothing; every continuity gap is flagged on the next buffer delivered and nothing else is; arbitrary corrupt packets cause no out-of-bounds access, no leak, no output out of nothing; units wrapped by the real pes_encaps and ts_encaps (packets 188 octets, sync, PID, continuity counter +1 per payload packet, PES headers as the standard lays them out) come back intact. Evidence, not proof.',
     'C09': 'Seeded exploration of concurrent use/release on the real urefcount with a harness-side count as oracle (destructor exactly once, never early). Evidence, not proof.',
 }
 
